@@ -158,7 +158,9 @@ class Ctx:
         with open(cfg, 'w') as f:
             f.write(cfg_text)
         meta = os.path.join(self.tmp, 'meta_%d' % len(self.tlc_runs))
-        cmd = ['java', '-XX:+UseParallelGC', '-Xmx' + heap, '-Xss64m',
+        jtmp = os.path.join(self.tmp, 'jtmp')
+        os.makedirs(jtmp, exist_ok=True)
+        cmd = ['java', '-XX:+UseParallelGC', '-Xmx' + heap, '-Xss64m', '-Djava.io.tmpdir=' + jtmp,
                '-cp', TLA_JAR + ':' + TLA_DEPS, 'tlc2.TLC',
                '-workers', str(workers), '-metadir', meta, '-noGenerateSpecTE',
                '-config', cfg]
